@@ -2,7 +2,7 @@
 """
 atheris (libFuzzer) targets with the semantic oracle INSIDE the target.
 
-    python -m vf.fuzz.target <accept|text> <failure-file> [libFuzzer args...]
+    python -m vf.fuzz.target <accept|text|dialogue|cli|rh> <failure-file> [libFuzzer args...]
 
 The bytes are decoded into structured arguments (version, raw/structured mode, field picks, edits) so
 that the fuzzer reaches the parser's logic; coverage feedback comes from the instrumented cvss package.
@@ -20,13 +20,16 @@ import atheris
 from vf import runner
 
 sys.path.insert(0, runner.REPO)
-with atheris.instrument_imports(include=["cvss", "cvss.cvss2", "cvss.cvss3", "cvss.cvss4", "cvss.parser"]):
+with atheris.instrument_imports(include=["cvss", "cvss.cvss2", "cvss.cvss3", "cvss.cvss4", "cvss.parser", "cvss.interactive", "cvss.cvss_calculator"]):
     import cvss  # noqa
     import cvss.parser  # noqa
+    import cvss.interactive  # noqa
+    import cvss.cvss_calculator  # noqa
 runner.import_target()      # proves that cvss comes from the tree under test
 
 from vf import spec  # noqa: E402
-from vf.props import c04, c13  # noqa: E402
+from vf import interact  # noqa: E402
+from vf.props import c04, c08, c12, c13, c16, c17  # noqa: E402
 
 WHICH = sys.argv[1]
 OUT = sys.argv[2]
@@ -113,8 +116,98 @@ def one_text(data):
         fail("text", inp, fails)
 
 
+from vf import gen  # noqa: E402
+WORDS = sorted(set(interact.COMMAND_WORDS) | set(gen.tree_constants()))
+
+
+def pick_answers(fdp, version, allm):
+    """an answer script: per question a few fuzzer-written wrong-looking answers, then a legal value in some spelling; maybe cut short"""
+    V = spec.VERS[interact.verkey(version)]
+    order = list(V.order if allm else V.mandatory)
+    answers = []
+    for m in order:
+        for _ in range(fdp.ConsumeIntInRange(0, 2)):
+            k = fdp.ConsumeIntInRange(0, 3)
+            if k == 0:
+                answers.append(fdp.ConsumeUnicodeNoSurrogates(fdp.ConsumeIntInRange(0, 12)).replace("\n", " ").replace("\r", " "))
+            elif k == 3:
+                w = WORDS[fdp.ConsumeIntInRange(0, len(WORDS) - 1)]
+                answers.append([w, w.lower(), w.upper(), " " + w][fdp.ConsumeIntInRange(0, 3)])
+            elif k == 1:
+                o = order[fdp.ConsumeIntInRange(0, len(order) - 1)]
+                answers.append(o + [":", "=", " ", ""][fdp.ConsumeIntInRange(0, 3)] + V.table[m][fdp.ConsumeIntInRange(0, len(V.table[m]) - 1)])
+            else:
+                v = V.table[m][fdp.ConsumeIntInRange(0, len(V.table[m]) - 1)]
+                answers.append(v + fdp.ConsumeUnicodeNoSurrogates(3).replace("\n", " ").replace("\r", " "))
+        v = V.table[m][fdp.ConsumeIntInRange(0, len(V.table[m]) - 1)]
+        answers.append([v, v.lower(), " " + v, v.upper() + " "][fdp.ConsumeIntInRange(0, 3)])
+    if fdp.ConsumeIntInRange(0, 5) == 0 and answers:
+        answers = answers[:fdp.ConsumeIntInRange(0, len(answers) - 1)]
+    return answers
+
+
+def one_dialogue(data):
+    EXECS[0] += 1
+    fdp = atheris.FuzzedDataProvider(data)
+    version = interact.VERSIONS[fdp.ConsumeIntInRange(0, len(interact.VERSIONS) - 1)]
+    allm = fdp.ConsumeBool()
+    inp = {"version": version, "all_metrics": allm, "no_colors": fdp.ConsumeBool(), "tty": fdp.ConsumeBool(), "answers": pick_answers(fdp, version, allm)}
+    fails = c16.check_dialogue(inp)
+    if fails:
+        fail("dialogue", inp, fails)
+    fails = c08.check_builder(inp)
+    if fails:
+        fail("builder", inp, fails)
+
+
+FLAGS = ["-2", "-3", "-4", "-j", "--json", "-a", "--all", "-n", "--no-colors"]
+
+
+def one_cli(data):
+    EXECS[0] += 1
+    fdp = atheris.FuzzedDataProvider(data)
+    argv = [FLAGS[fdp.ConsumeIntInRange(0, len(FLAGS) - 1)] for _ in range(fdp.ConsumeIntInRange(0, 4))]
+    vers = [c17.FLAGVER[a] for a in argv if a in c17.FLAGVER] or [c17.DEFAULT]
+    ver = interact.verkey(vers[0])
+    stdin = None
+    if fdp.ConsumeIntInRange(0, 3) == 0:
+        stdin = pick_answers(fdp, vers[0], ("-a" in argv) or ("--all" in argv))
+    else:
+        vec = pick_vector(fdp, ver) if fdp.ConsumeBool() else fdp.ConsumeUnicodeNoSurrogates(80).replace("\x00", "")
+        if vec == "--":
+            vec = "--x"
+        argv.append("--vector=" + vec)
+    inp = {"argv": argv, "stdin": stdin}
+    fails = c17.check_cli(inp)
+    if fails:
+        fail("cli", inp, fails)
+
+
+def one_rh(data):
+    EXECS[0] += 1
+    fdp = atheris.FuzzedDataProvider(data)
+    ver = spec.VKEYS[fdp.ConsumeIntInRange(0, 2)]
+    vec = pick_vector(fdp, ver)
+    k = fdp.ConsumeIntInRange(0, 3)
+    if k == 0:
+        score = fdp.ConsumeUnicodeNoSurrogates(12)
+    elif k == 1:
+        score = "%.1f" % (fdp.ConsumeIntInRange(0, 100) / 10.0)
+    else:
+        from vf import ref, scorecheck
+        if ref.classify(ver, vec)[0] == ref.OK:
+            base = scorecheck.as_floats(scorecheck.expected_scores(ver, vec))[0]
+            score = ["%.1f", "%r", "%.2f", " %.1f", "%.1f ", "+%.1f", "%.1fe0", "0%.1f"][fdp.ConsumeIntInRange(0, 7)] % base
+        else:
+            score = "5.0"
+    inp = {"ver": ver, "text": score + ["/", "", "//", " /"][min(3, fdp.ConsumeIntInRange(0, 9))] + vec}
+    fails = c12.check_rh_parse(inp)
+    if fails:
+        fail("rh_parse", inp, fails)
+
+
 def main():
-    target = {"accept": one_accept, "text": one_text}[WHICH]
+    target = {"accept": one_accept, "text": one_text, "dialogue": one_dialogue, "cli": one_cli, "rh": one_rh}[WHICH]
     atheris.Setup([sys.argv[0]] + sys.argv[3:], target)
     atheris.Fuzz()
 
